@@ -193,7 +193,7 @@ def run_differential(prog, script, fail: Callable[[str, Optional[str]], None], c
                 segs_covered = range(last_compared + 1, si + 1)     # (a late commit is judged together with the next segment)
                 last_compared = si
                 got_regs = sorted(r for (_a, kind, r, _v) in pubs if kind == "reg")
-                want_regs = sorted(set().union(*[drv.seg_regs.get(j, set()) for j in segs_covered]))
+                want_regs = sorted(r for j in segs_covered for r in drv.seg_regs.get(j, set()))   # each segment returns its own
                 if got_regs != want_regs and not (set(drv.regs) & nested_regs):
                     fail(f"segment {si}: registers returned to the host {got_regs}, but the registers handed to host handles in this "
                          f"segment are {want_regs}", None)
